@@ -14,7 +14,6 @@ WT=/tmp/wt-$NAME; OUT=/tmp/wt-$NAME-out
 cd "$WT" || exit 2
 LOG=/tmp/confirm-$NAME.log; : > $LOG
 # demo files = untracked files in the worktree
-git stash -q -u 2>/dev/null; git stash drop -q 2>/dev/null
 git checkout -q -- . ; git clean -fdq
 DEMOS=$(python3 - "$OUT" <<'EOF'
 import sys,os,re,json
